@@ -232,7 +232,7 @@ fn split_bits(rng: &mut Rng, total: u32, parts: u32, min_bits: u32) -> Vec<u32> 
 /// Build n from primes chosen here, so that the expected factorisation is known.
 fn gen_number(rng: &mut Rng, bits: u32) -> (Vec<u128>, String) {
     let bits = bits.max(8);
-    let shape = rng.weighted(&[30, 12, 14, 6, 5, 6, 6, 5, 5, 4, 3]);
+    let shape = rng.weighted(&[30, 12, 14, 6, 5, 6, 6, 5, 5, 4, 3, 6]);
     let cap = |b: u32| b.clamp(2, 120);
     let (mut primes, name): (Vec<u128>, &str) = match shape {
         0 => {
@@ -291,6 +291,24 @@ fn gen_number(rng: &mut Rng, bits: u32) -> (Vec<u128>, String) {
             (vec![p, q], "close_factors")
         }
         9 => (vec![gen_prime(rng, cap(bits))], "prime"),
+        11 => {
+            // a repeated prime of factor-base size (above the trial-division range) times a semiprime:
+            // the sieves then return overlapping / non-coprime divisors
+            let pb = rng_bits(rng, 8, 16);
+            let p = loop {
+                let p = gen_prime(rng, pb);
+                if p > 199 {
+                    break p;
+                }
+            };
+            let k = if rng.chance(0.25) { 3 } else { 2 };
+            let used = k * (128 - p.leading_zeros());
+            let rest = bits.saturating_sub(used).max(24);
+            let mut v = vec![p; k as usize];
+            v.push(gen_prime(rng, cap(rest / 2)));
+            v.push(gen_prime(rng, cap(rest - rest / 2)));
+            (v, "repeated_fbase_prime")
+        }
         _ => {
             // several factors of 20-30 bits: many ECM curves succeed at once
             let k = (bits / 26).clamp(2, 5);
